@@ -108,7 +108,7 @@ pub fn judge_range_api(ctx: &Ctx, l: &mut Local, p: &Params, site: Site, start: 
     if (1..=12).contains(&span) && site.lat == 39.0 && p.round_seconds == RoundSeconds::None {
         for (d, v) in &m {
             let c = PtCase::new(p, site, *d);
-            match crate::c12::canonical(&c) {
+            match crate::history::fresh(&c) {
                 Some(r) => {
                     l.count("range_entries_compared_with_fresh_process_calls", 1);
                     if r != *v {
@@ -125,6 +125,8 @@ pub fn judge_range_api(ctx: &Ctx, l: &mut Local, p: &Params, site: Site, start: 
 }
 
 pub fn explore(ctx: &Ctx) {
+    // call sequences from non-initial states (see history.rs)
+    crate::history::explore(ctx, "policy", &crate::history::alphabet_policy(), 2);
     let quick = ctx.tier == Tier::Quick;
     crate::c07::install_quiet_hook();
     ctx.rule("every (start, span, k) triple is one partition case and every (start, span, site, params) one range-API case; non-trivial = k >= 2 on a non-empty range (a real split) resp. a range-API result compared key-by-key and value-by-value with the single-date API");
